@@ -154,6 +154,58 @@ def caller_dict_problems(material: RKey, params, rng, res, label) -> list:
     return out
 
 
+def material_in_parameters_problems(material: RKey, rng, res, label) -> list:
+    """`parameters` are for kid / use / alg and the like.  When a caller (a template copied from another key, a merged config)
+    passes key members there, the call either refuses or the key stays what its material says: never a key that computes with
+    one key and exports, thumbprints and names itself as another"""
+    from joserfc.jwk import JWKRegistry
+    kind = _kind(material)
+    if kind[0] == "RSA":
+        other = S.gen_material(rng.sub("other"), ("RSA", 2048))
+    else:
+        other = S.gen_material(rng.sub("other"), kind)
+    oj = rk.to_jwk(other, True)
+    names = [n for n in oj if n != "kty"]
+    chosen = rng.pick([[rng.pick(names)], names, [n for n in names if n not in ("d", "p", "q", "dp", "dq", "qi")]])
+    if kind[0] == "EC" and rng.chance(0.2):
+        oj, chosen = {"crv": rng.pick([c for c in ("P-256", "P-384", "P-521") if c != kind[1]])}, ["crv"]
+    if rng.chance(0.1):
+        oj, chosen = {"kty": rng.pick([t for t in ("oct", "RSA", "EC", "OKP") if t != kind[0]])}, ["kty"]
+    params = {n: oj[n] for n in chosen}
+    cls = S.jose_cls(material.kty)
+    how = rng.pick(["jwk", "jwk-generic", "bytes", "generate"])
+    if how == "generate" and kind[0] == "RSA":
+        how = "bytes"
+    try:
+        with warnings.catch_warnings():
+            warnings.simplefilter("ignore")
+            if how == "jwk":
+                key = cls.import_key(rk.to_jwk(material, True), copy.deepcopy(params))
+            elif how == "jwk-generic":
+                key = JWKRegistry.import_key(rk.to_jwk(material, True), parameters=copy.deepcopy(params))
+            elif how == "bytes":
+                key = cls.import_key(material.k if kind[0] == "oct" else K.pem(material, True), copy.deepcopy(params))
+            else:
+                key = cls.generate_key(len(material.k) * 8 if kind[0] == "oct" else kind[1], copy.deepcopy(params))
+            native = S.material_of(key)
+            exported = key.as_dict()
+            thumb = key.thumbprint()
+    except Exception:
+        res.case(label, "material-in-parameters", how, tuple(chosen), "refused")
+        return []
+    res.case(label, "material-in-parameters", how, tuple(chosen), "accepted")
+    res.fired("key-members-passed-as-parameters")
+    try:
+        told = rk.from_jwk(exported, strict=False)
+    except rk.KeyError_ as e:
+        return [("parameters:override-key-material", "%s with parameters %s: the exported JWK is not a key (%s)" % (how, sorted(params), e))]
+    if exported.get("kty") != kind[0] or not S.same_public(native, told) or thumb != rk.thumbprint(native) or \
+            (native.priv is not None and kind[0] != "oct" and told.priv is not None and not S.same_private(native, told)):
+        return [("parameters:override-key-material", "%s with parameters %s gives a key that computes with one key and exports / thumbprints another "
+                 "(members %s come from the parameters)" % (how, sorted(params), sorted(n for n in params if exported.get(n) == params[n])))]
+    return []
+
+
 def check_key(res, tr, label, material: RKey, jkey, params, viol, rng, thorough):
     """persist in every form, crash, reload, compare"""
     kind = _kind(material)
@@ -251,6 +303,8 @@ def check_key(res, tr, label, material: RKey, jkey, params, viol, rng, thorough)
                 jkey.kid, {k: v for k, v in snapshot.items() if second.get(k) != v}, kid_before), "export-scribble")
     for sig, what in caller_dict_problems(material, params, rng, res, label):
         viol(sig, what, "caller-dicts")
+    for sig, what in material_in_parameters_problems(material, rng.sub("material-parameters"), res, label):
+        viol(sig, what, "material-in-parameters")
     # private export of a public-only key must be an error
     try:
         pub = S.reload(S.persist(jkey, "jwk-public"), "jwk-public", material.kty) if kind[0] != "oct" else None
